@@ -8,22 +8,19 @@ package c15
 
 import (
 	"fmt"
-	"os"
 	"sort"
 	"strconv"
 	"strings"
 
 	"github.com/onosproject/onos-config/verifharness/internal/fw"
 	"github.com/onosproject/onos-config/verifharness/internal/rng"
+	"github.com/onosproject/onos-config/verifharness/internal/worker"
 	"github.com/onosproject/onos-lib-go/pkg/logging"
 )
 
 func init() {
 	logging.SetLevel(logging.FatalLevel)
-	if os.Getenv("VERIF_C15_CHILD") == "worker" {
-		runWorker()
-		os.Exit(0)
-	}
+	worker.Serve("c15", func() fw.Real { return newLocalReal() })
 	fw.Register(Prop)
 }
 
@@ -756,6 +753,8 @@ func match(line, realOut, twinOut string) bool {
 	return false
 }
 
+var pool = &worker.Pool{Name: "c15", CasesPerWorker: 150}
+
 // Prop is the C15 correspondence check.
 var Prop = &fw.Prop{
 	ID: "C15",
@@ -767,7 +766,7 @@ var Prop = &fw.Prop{
 		"Non-trivial = at least one same-version write pair or one cancel; distinct = distinct script.",
 	Quick: 700, Thorough: 12000, Workers: 8,
 	Gen: gen, Enumerate: enumerate,
-	NewReal: newReal,
+	NewReal: pool.NewReal,
 	Monitor: monitor,
 	Match:   match,
 	Reset:   "store.reset",
